@@ -90,7 +90,13 @@ func (v *Validator) ValidateAndAddShare(msg *sm.MiningSubmit) (float64, error) {
 		return 0, ErrDuplicateShare
 	}
 
-	diff, ok := ValidateDiffFloat(job.extraNonce1, uint(job.extraNonce2Size), job.diff, v.versionRollingMask, job.notify, msg)
+	// without a negotiated mask no version bit may come from the miner
+	mask := v.versionRollingMask
+	if len(mask) != 8 {
+		mask = "00000000"
+	}
+
+	diff, ok := ValidateDiffFloat(job.extraNonce1, uint(job.extraNonce2Size), job.diff, mask, job.notify, msg)
 	diffFloat := float64(diff)
 	if !ok {
 		err := lib.WrapError(ErrLowDifficulty, fmt.Errorf("expected %.2f actual %d xn=%s, xnsize=%d, diff=%d, vrmsk=%s", job.diff, diff, job.extraNonce1, uint(job.extraNonce2Size), uint64(job.diff), v.versionRollingMask))
